@@ -5,6 +5,7 @@ From KV Require Import Base.Prelude Gen.ErrorCodes Gen.Consts Model.Codecs Model
 
 From KV Require Import Proofs.C11Extra.
 From KV Require Import Proofs.C11ExtraB.
+From KV Require Import Proofs.C11ExtraC.
 (* the table, for every i16 (indeed every integer): 0 is success, the declared range maps
    to the variant of that discriminant, anything else to Unknown; the enum read from
    src/error.rs declares every value of the transmuted range *)
@@ -357,3 +358,99 @@ Print Assumptions C11_fetch_group_topic_offset_ok_clean.
 Print Assumptions C11_group_fetch_retry_exhausted.
 Print Assumptions C11_group_fetch_retry_step.
 Print Assumptions C11_group_scan_retry.
+
+Theorem C11_wire_kind :
+  forall e : Z, e <> 0 -> from_protocol e = Some (kind_of e).
+Proof. exact (@C11ExtraC.C11_wire_kind). Qed.
+
+Theorem C11_wire_kind_only :
+  forall e c : Z, from_protocol e = Some c -> 1 <= c <= 35 /\ e = c \/ c = -1 /\ (e < 0 \/ 35 < e).
+Proof. exact (@C11ExtraC.C11_wire_kind_only). Qed.
+
+Theorem C11_control_codes_exact :
+  forall e : Z, (from_protocol e = Some KC_UnknownTopicOrPartition <-> e = 3) /\ (from_protocol e = Some KC_GroupLoadInProgress <-> e = 14) /\ (from_protocol e = Some KC_GroupCoordinatorNotAvailable <-> e = 15) /\ (from_protocol e = Some KC_NotCoordinatorForGroup <-> e = 16).
+Proof. exact (@C11ExtraC.C11_control_codes_exact). Qed.
+
+Theorem C11_wire_partition_results :
+  forall e : Z, e <> 0 -> (forall p : part_offset_resp, por_error p = e -> to_offset p = inr (kind_of e)) /\ (forall p : list_offset_part, lop_error p = e -> lop_to_offset p = inr (kind_of e)) /\ (forall p : produce_part, pp_error p = e -> produce_confirm p = (pp_partition p, inr (kind_of e))) /\ (forall p : offset_fetch_part, ofp_error p = e -> e <> 3 -> get_offsets p = inr (kind_of e)).
+Proof. exact (@C11ExtraC.C11_wire_partition_results). Qed.
+
+Theorem C11_get_offsets_wire :
+  forall p : offset_fetch_part, get_offsets p = (if ofp_error p =? 0 then inl (ofp_partition p, ofp_offset p) else if ofp_error p =? 3 then inl (ofp_partition p, -1) else inr (kind_of (ofp_error p))).
+Proof. exact (@C11ExtraC.C11_get_offsets_wire). Qed.
+
+Theorem C11_acceptable_wire :
+  forall p : offset_fetch_part, ofp_acceptable p <-> ofp_wire_ok p.
+Proof. exact (@C11ExtraC.C11_acceptable_wire). Qed.
+
+Theorem C11_group_fetch_ok_wire :
+  forall (f : nat) (group : bytes) (req : res bytes) (attempt : Z) (s : st) (m : list (bytes * list (Z * Z))) (s' : st), group_fetch_loop f group req attempt s = (Ok m, s') -> exists (h : bytes) (s1 : st) (corr : Z) (tps : list (bytes * list offset_fetch_part)), send_receive dec_offset_fetch_resp h req s1 = (Ok (corr, tps), s') /\ group_scan tps [] = inl (inl m) /\ (forall (t : bytes) (ps : list offset_fetch_part) (p : offset_fetch_part), In (t, ps) tps -> In p ps -> ofp_error p = 0 \/ ofp_error p = 3).
+Proof. exact (@C11ExtraC.C11_group_fetch_ok_wire). Qed.
+
+Theorem C11_fetch_group_offsets_ok_wire :
+  forall (group : bytes) (ps : list (bytes * Z)) (s : st) (m : list (bytes * list (Z * Z))) (s' : st), fetch_group_offsets group ps s = (Ok m, s') -> exists (corr : Z) (otps : list (bytes * list Z)) (h : bytes) (s1 : st) (rc : Z) (tps : list (bytes * list offset_fetch_part)), group_fetch_tps (cs (cl s)) ps [] = Some otps /\ send_receive dec_offset_fetch_resp h (enc_offset_fetch_req corr (client_id (cfg (cl s))) group (fetch_version (offset_storage (cfg (cl s)))) otps) s1 = (Ok (rc, tps), s') /\ group_scan tps [] = inl (inl m) /\ (forall (t : bytes) (ps' : list offset_fetch_part) (p : offset_fetch_part), In (t, ps') tps -> In p ps' -> ofp_error p = 0 \/ ofp_error p = 3).
+Proof. exact (@C11ExtraC.C11_fetch_group_offsets_ok_wire). Qed.
+
+Theorem C11_fetch_group_topic_offset_ok_wire :
+  forall (group topic : bytes) (s : st) (vs : list (Z * Z)) (s' : st), fetch_group_topic_offset group topic s = (Ok vs, s') -> exists (h : bytes) (req : res bytes) (s1 : st) (rc : Z) (tps : list (bytes * list offset_fetch_part)) (m : list (bytes * list (Z * Z))), send_receive dec_offset_fetch_resp h req s1 = (Ok (rc, tps), s') /\ group_scan tps [] = inl (inl m) /\ vs = match assoc_bytes topic m with | Some v => v | None => [] end /\ (forall (t : bytes) (ps : list offset_fetch_part) (p : offset_fetch_part), In (t, ps) tps -> In p ps -> ofp_error p = 0 \/ ofp_error p = 3).
+Proof. exact (@C11ExtraC.C11_fetch_group_topic_offset_ok_wire). Qed.
+
+Theorem C11_group_first_bad_total :
+  forall tps : list (bytes * list offset_fetch_part), (forall (t : bytes) (ps : list offset_fetch_part) (q : offset_fetch_part), In (t, ps) tps -> In q ps -> ofp_wire_ok q) \/ (exists (t : bytes) (p : offset_fetch_part), group_first_bad tps t p).
+Proof. exact (@C11ExtraC.C11_group_first_bad_total). Qed.
+
+Theorem C11_group_scan_wire :
+  forall (tps : list (bytes * list offset_fetch_part)) (m : list (bytes * list (Z * Z))) (t : bytes) (p : offset_fetch_part), group_first_bad tps t p -> group_scan tps m = (if ofp_error p =? 14 then inl (inr (14, false)) else if ofp_error p =? 16 then inl (inr (16, true)) else inr (kind_of (ofp_error p))).
+Proof. exact (@C11ExtraC.C11_group_scan_wire). Qed.
+
+Theorem C11_group_fetch_resend_only_if :
+  forall (f : nat) (group : bytes) (req : res bytes) (attempt : Z) (s : st) (h : bytes) (s1 : st) (corr : Z) (tps : list (bytes * list offset_fetch_part)) (s2 : st) (r : res (list (bytes * list (Z * Z)))) (s' : st), get_group_coordinator group s = (Ok h, s1) -> send_receive dec_offset_fetch_resp h req s1 = (Ok (corr, tps), s2) -> group_fetch_loop (S f) group req attempt s = (r, s') -> (exists m : list (bytes * list (Z * Z)), (forall (t : bytes) (ps : list offset_fetch_part) (q : offset_fetch_part), In (t, ps) tps -> In q ps -> ofp_error q = 0 \/ ofp_error q = 3) /\ group_scan tps [] = inl (inl m) /\ r = Ok m /\ s' = s2) \/ (exists (t : bytes) (p : offset_fetch_part), group_first_bad tps t p /\ ofp_error p <> 14 /\ ofp_error p <> 16 /\ r = Err (EKafka (kind_of (ofp_error p))) /\ s' = s2) \/ (exists (t : bytes) (p : offset_fetch_part), group_first_bad tps t p /\ (ofp_error p = 14 \/ ofp_error p = 16)).
+Proof. exact (@C11ExtraC.C11_group_fetch_resend_only_if). Qed.
+
+Theorem C11_coordinator_wire :
+  forall (f : nat) (group : bytes) (req : res bytes) (attempt : Z) (s : st) (r : coordinator_resp) (s1 : st) (x : res bytes) (s' : st), group_lookup_attempt req s = (Ok r, s1) -> group_lookup_loop (S f) group req attempt s = (x, s') -> gc_error r = 0 /\ x = Ok (fst (set_group_coordinator (cs (cl s1)) group r)) \/ gc_error r <> 0 /\ gc_error r <> 15 /\ x = Err (EKafka (kind_of (gc_error r))) /\ s' = s1 \/ gc_error r = 15 /\ (attempt < retry_max_attempts (cfg (cl s1)) -> (x, s') = group_lookup_loop f group req (attempt + 1) s1) /\ (retry_max_attempts (cfg (cl s1)) <= attempt -> x = Err (EKafka 15) /\ s' = s1).
+Proof. exact (@C11ExtraC.C11_coordinator_wire). Qed.
+
+Theorem C11_merge_fails_only_if :
+  forall (P V : Type) (conv : P -> V + Z) (pid : P -> Z) (tps : list (bytes * list P)) (m : list (bytes * list V)), match merge_topics conv pid tps m with | Ok _ => C10Facts.all_conv conv tps | Err e => exists (tpre : list (bytes * list P)) (t : bytes) (ps : list P) (tpost : list (bytes * list P)) (ppre : list P) (p : P) (ppost : list P) (c : Z), tps = tpre ++ (t, ps) :: tpost /\ (forall (t' : bytes) (ps' : list P), In (t', ps') tpre -> healthy conv ps') /\ ps = ppre ++ p :: ppost /\ healthy conv ppre /\ conv p = inr c /\ e = ETopicPartition t (pid p) c | Panic _ => False end.
+Proof. exact (@C11ExtraC.C11_merge_fails_only_if). Qed.
+
+Theorem C11_offsets_exchange_total :
+  forall (P V : Type) (enc : list (bytes * list (Z * Z)) -> res bytes) (d : dec (Z * list (bytes * list P))) (conv : P -> V + Z) (pid : P -> Z) (reqs : list (bytes * list (bytes * list (Z * Z)))) (m : list (bytes * list V)) (s : st) (r : res (list (bytes * list V))) (s' : st), offsets_exchange enc d conv pid reqs m s = (r, s') -> exists (pre : list (bytes * list (bytes * list (Z * Z)))) (resps : list (list (bytes * list P))) (s1 : st), C10Facts.exchanges enc d pre s resps s1 /\ C10Facts.all_conv conv (concat resps) /\ (pre = reqs /\ s' = s1 /\ (exists m' : list (bytes * list V), r = Ok m') \/ (exists (h : bytes) (tps : list (bytes * list (Z * Z))) (post : list (bytes * list (bytes * list (Z * Z)))) (x : res (Z * list (bytes * list P))), reqs = pre ++ (h, tps) :: post /\ send_receive d h (enc tps) s1 = (x, s') /\ exchange_failure conv pid x r)).
+Proof. exact (@C11ExtraC.C11_offsets_exchange_total). Qed.
+
+Theorem C11_offsets_exchange_io_error :
+  forall (P V : Type) (enc : list (bytes * list (Z * Z)) -> res bytes) (d : dec (Z * list (bytes * list P))) (conv : P -> V + Z) (pid : P -> Z) (pre : list (bytes * list (bytes * list (Z * Z)))) (h : bytes) (tps : list (bytes * list (Z * Z))) (post : list (bytes * list (bytes * list (Z * Z)))) (m : list (bytes * list V)) (s : st) (resps : list (list (bytes * list P))) (s1 : st) (e : err) (s2 : st), C10Facts.exchanges enc d pre s resps s1 -> C10Facts.all_conv conv (concat resps) -> send_receive d h (enc tps) s1 = (Err e, s2) -> offsets_exchange enc d conv pid (pre ++ (h, tps) :: post) m s = (Err e, s2).
+Proof. exact (@C11ExtraC.C11_offsets_exchange_io_error). Qed.
+
+Theorem C11_list_offsets_total :
+  forall (topics : list bytes) (time : Z) (s : st) (corr : Z) (s0 : st) (reqs : list (bytes * list (bytes * list (Z * Z)))) (s1 : st) (r : res (list (bytes * list (Z * Z * Z)))) (s' : st), next_corr s = (Ok corr, s0) -> ordered (offset_reqs (cs (cl s0)) topics time) s0 = (Ok reqs, s1) -> list_offsets topics time s = (r, s') -> let enc := enc_list_offsets_req corr (client_id (cfg (cl s0))) in exists (pre : list (bytes * list (bytes * list (Z * Z)))) (resps : list (list (bytes * list list_offset_part))) (s2 : st), C10Facts.exchanges enc dec_list_offsets_resp pre s1 resps s2 /\ (forall (t : bytes) (ps : list list_offset_part) (p : list_offset_part), In (t, ps) (concat resps) -> In p ps -> lop_error p = 0) /\ (pre = reqs /\ s' = s2 /\ (exists m' : list (bytes * list (Z * Z * Z)), r = Ok m') \/ (exists (h : bytes) (tps : list (bytes * list (Z * Z))) (post : list (bytes * list (bytes * list (Z * Z)))) (x : res (Z * list (bytes * list list_offset_part))), reqs = pre ++ (h, tps) :: post /\ send_receive dec_list_offsets_resp h (enc tps) s2 = (x, s') /\ exchange_failure lop_to_offset lop_partition x r)).
+Proof. exact (@C11ExtraC.C11_list_offsets_total). Qed.
+
+Theorem C11_fetch_offsets_total :
+  forall (topics : list bytes) (time : Z) (s : st) (corr : Z) (s0 : st) (reqs : list (bytes * list (bytes * list (Z * Z)))) (s1 : st) (r : res (list (bytes * list (Z * Z)))) (s' : st), next_corr s = (Ok corr, s0) -> ordered (offset_reqs (cs (cl s0)) topics time) s0 = (Ok reqs, s1) -> fetch_offsets topics time s = (r, s') -> let enc := enc_offset_req corr (client_id (cfg (cl s0))) in exists (pre : list (bytes * list (bytes * list (Z * Z)))) (resps : list (list (bytes * list part_offset_resp))) (s2 : st), C10Facts.exchanges enc dec_offset_resp pre s1 resps s2 /\ (forall (t : bytes) (ps : list part_offset_resp) (p : part_offset_resp), In (t, ps) (concat resps) -> In p ps -> por_error p = 0) /\ (pre = reqs /\ s' = s2 /\ (exists m' : list (bytes * list (Z * Z)), r = Ok m') \/ (exists (h : bytes) (tps : list (bytes * list (Z * Z))) (post : list (bytes * list (bytes * list (Z * Z)))) (x : res (Z * list (bytes * list part_offset_resp))), reqs = pre ++ (h, tps) :: post /\ send_receive dec_offset_resp h (enc tps) s2 = (x, s') /\ exchange_failure to_offset por_partition x r)).
+Proof. exact (@C11ExtraC.C11_fetch_offsets_total). Qed.
+
+Theorem C11_list_offsets_ok_clean :
+  forall (topics : list bytes) (time : Z) (s : st) (m : list (bytes * list (Z * Z * Z))) (s' : st), list_offsets topics time s = (Ok m, s') -> exists (corr : Z) (s0 : st) (reqs : list (bytes * list (bytes * list (Z * Z)))) (s1 : st) (resps : list (list (bytes * list list_offset_part))), next_corr s = (Ok corr, s0) /\ ordered (offset_reqs (cs (cl s0)) topics time) s0 = (Ok reqs, s1) /\ C10Facts.exchanges (enc_list_offsets_req corr (client_id (cfg (cl s0)))) dec_list_offsets_resp reqs s1 resps s' /\ (forall (t : bytes) (ps : list list_offset_part) (p : list_offset_part), In (t, ps) (concat resps) -> In p ps -> lop_error p = 0).
+Proof. exact (@C11ExtraC.C11_list_offsets_ok_clean). Qed.
+
+Print Assumptions C11_wire_kind.
+Print Assumptions C11_wire_kind_only.
+Print Assumptions C11_control_codes_exact.
+Print Assumptions C11_wire_partition_results.
+Print Assumptions C11_get_offsets_wire.
+Print Assumptions C11_acceptable_wire.
+Print Assumptions C11_group_fetch_ok_wire.
+Print Assumptions C11_fetch_group_offsets_ok_wire.
+Print Assumptions C11_fetch_group_topic_offset_ok_wire.
+Print Assumptions C11_group_first_bad_total.
+Print Assumptions C11_group_scan_wire.
+Print Assumptions C11_group_fetch_resend_only_if.
+Print Assumptions C11_coordinator_wire.
+Print Assumptions C11_merge_fails_only_if.
+Print Assumptions C11_offsets_exchange_total.
+Print Assumptions C11_offsets_exchange_io_error.
+Print Assumptions C11_list_offsets_total.
+Print Assumptions C11_fetch_offsets_total.
+Print Assumptions C11_list_offsets_ok_clean.
